@@ -158,7 +158,15 @@ def materialise(p: dict, root: Path, rnd: random.Random, outside: Path | None = 
                              b"SPDX-FileCopyrightText: 1998 Inside Binary\n\x00\x00" + os.urandom(16))
         else:
             key = json.dumps([salt, f["own"], body], sort_keys=True)
-            path.write_text(header_text(f["own"], random.Random(key)) + body)
+            r2 = random.Random(key)
+            head = header_text(f["own"], r2)
+            if head and r2.random() < 0.15:
+                # the same declarations, but inside a snippet that starts beyond the 4 KiB header window: a file with a
+                # snippet marker is read in full, so what the file declares is unchanged
+                filler = "".join(f"line {n} of a long preamble without any tag in it, just text to fill space\n" for n in range(70))
+                path.write_text(filler + "# SPDX-SnippetBegin\n" + head + body + "# SPDX-SnippetEnd\n")
+            else:
+                path.write_text(head + body)
         d = f.get("dot")
         if d and d.get("present"):
             lic = Path(str(path) + ".license")
